@@ -6,3 +6,53 @@ use crate::rules::time::TimeSelector;
 pub fn time_selector_is_00_24(selector: &TimeSelector) -> bool {
     selector.is_00_24()
 }
+
+// Conversion of selectors to the canonical ranges of the normalization paving and back (the real
+// `MakeCanonical` pipeline of normalize/canonical.rs and normalize/frame.rs).
+
+use crate::normalize::canonical::MakeCanonical;
+use crate::rules::day::{MonthdayRange, WeekDayRange, WeekRange, YearRange};
+use crate::rules::time::TimeSpan;
+
+fn canonical_roundtrip<T: MakeCanonical>(
+    selector: &[T],
+    remove_full_ranges: bool,
+) -> Option<Vec<T>> {
+    let canonical = T::try_from_iterator(selector)?;
+    Some(T::into_selector(canonical, remove_full_ranges))
+}
+
+pub fn canonical_roundtrip_years(
+    selector: &[YearRange],
+    remove_full_ranges: bool,
+) -> Option<Vec<YearRange>> {
+    canonical_roundtrip(selector, remove_full_ranges)
+}
+
+pub fn canonical_roundtrip_months(
+    selector: &[MonthdayRange],
+    remove_full_ranges: bool,
+) -> Option<Vec<MonthdayRange>> {
+    canonical_roundtrip(selector, remove_full_ranges)
+}
+
+pub fn canonical_roundtrip_weeks(
+    selector: &[WeekRange],
+    remove_full_ranges: bool,
+) -> Option<Vec<WeekRange>> {
+    canonical_roundtrip(selector, remove_full_ranges)
+}
+
+pub fn canonical_roundtrip_weekdays(
+    selector: &[WeekDayRange],
+    remove_full_ranges: bool,
+) -> Option<Vec<WeekDayRange>> {
+    canonical_roundtrip(selector, remove_full_ranges)
+}
+
+pub fn canonical_roundtrip_timespans(
+    selector: &[TimeSpan],
+    remove_full_ranges: bool,
+) -> Option<Vec<TimeSpan>> {
+    canonical_roundtrip(selector, remove_full_ranges)
+}
